@@ -10,5 +10,6 @@ verus! {
 //@include std_specs.rs
 //@include r_model.rs
 //@include seq_lib.rs
+//@include iter_models.rs
 //@import window.rs.tpl
 //@include method_trait.rs
